@@ -658,3 +658,66 @@ pub fn lower(p: &Program) -> ExecCase {
     case.prog = encode_prog(&out);
     case
 }
+
+// ---- dense ALU programs ----------------------------------------------------------------------
+
+/// Straight-line programs made only of the instructions with the largest machine-code expansion
+/// (division / modulo / multiplication by a register, wide loads, shifts by a register), on
+/// initialised registers: fully defined, executable on every engine, and a worst case for the
+/// code-size estimation of the compilers (C12, C20) at every program length from 1 to `max` .
+pub fn dense_alu(max: usize) -> impl Strategy<Value = ExecCase> {
+    dense(max, false)
+}
+
+/// `bare`: no register initialisation and no result folding - for compile-only use, where the
+/// whole program can consist of worst-case instructions.
+pub fn dense(max: usize, bare: bool) -> impl Strategy<Value = ExecCase> {
+    let heavy = prop_oneof![
+        6 => Just(ALU_DIV),
+        4 => Just(ALU_MOD),
+        2 => Just(ALU_MUL),
+        1 => Just(ALU_LSH),
+        1 => Just(ALU_ARSH),
+    ];
+    // (operation, 64-bit?, dst, src, immediate form?, immediate, follow the program's dominant choice?)
+    let insn = (heavy.clone(), any::<bool>(), 0u8..10, 0u8..10, prop::bool::weighted(0.1), interesting_i32(), prop::bool::weighted(0.9)).boxed();
+    let len = prop_oneof![3 => 1usize..130, 2 => 90usize..max.max(91), 1 => 240usize..max.max(241)];
+    (
+        len,
+        [interesting_u64(), interesting_u64(), interesting_u64(), interesting_u64(), interesting_u64(), interesting_u64(), interesting_u64(), interesting_u64(), interesting_u64(), interesting_u64()],
+        any::<bool>(),
+        (heavy, any::<bool>(), prop::bool::weighted(0.5)),
+    )
+        .prop_flat_map(move |(n, init, short_prologue, dominant)| (prop::collection::vec(insn.clone(), n..=n), Just(init), Just(short_prologue), Just(dominant)))
+        .prop_map(move |(body, init, short_prologue, (dom_op, dom_64, use_dominant))| {
+            let mut out: Vec<Insn> = Vec::new();
+            if !bare {
+                for r in 0..10u8 {
+                    let v = init[r as usize];
+                    if short_prologue {
+                        // one instruction per register keeps the program short
+                        out.push(Insn::new(alu_opc(true, ALU_MOV, false), r, 0, 0, v as i32));
+                    } else {
+                        out.push(Insn::new(LDDW, r, 0, 0, v as u32 as i32));
+                        out.push(Insn::new(0, 0, 0, 0, (v >> 32) as u32 as i32));
+                    }
+                }
+            }
+            for (op, is64, dst, src, imm_form, imm, follow) in body {
+                let (op, is64, imm_form) = if use_dominant && follow { (dom_op, dom_64, false) } else { (op, is64, imm_form) };
+                if imm_form {
+                    out.push(Insn::new(alu_opc(is64, op, false), dst, 0, 0, imm));
+                } else {
+                    out.push(Insn::new(alu_opc(is64, op, true), dst, src, 0, 0));
+                }
+            }
+            if !bare {
+                // fold a few registers so that the result depends on the whole computation
+                for r in 1..10u8 {
+                    out.push(Insn::new(alu_opc(true, ALU_XOR, true), 0, r, 0, 0));
+                }
+            }
+            out.push(Insn::new(EXIT, 0, 0, 0, 0));
+            ExecCase::new(VmKind::NoData, encode_prog(&out))
+        })
+}
